@@ -48,6 +48,7 @@ type Act struct {
 
 type Case struct {
 	NTables  int     `json:"nTables"`
+	Pad      []int   `json:"pad,omitempty"` // unused tables registered before workload table i (large databases: table positions 64 and more apart)
 	Workers  [][]Act `json:"workers"`
 	Schedule []int   `json:"schedule"`
 }
@@ -355,6 +356,16 @@ func run(c Case, own string) (res result) {
 	s := &sched{c: c, byGid: map[uint64]*worker{}, seqOf: map[uint64]int{}, owner: map[uint64]*worker{}, committedCnt: map[int]int{}, classes: map[string]bool{}}
 	s.db = statedb.New()
 	for i := 0; i < max(1, c.NTables); i++ {
+		if i < len(c.Pad) {
+			for j := 0; j < c.Pad[i]; j++ {
+				if _, err := statedb.NewTable[*acct](s.db, fmt.Sprintf("pad%d_%d", i, j), acctIndex); err != nil {
+					panic(err)
+				}
+			}
+			if c.Pad[i] > 0 {
+				s.classes["padded_tables"] = true
+			}
+		}
 		t, err := statedb.NewTable[*acct](s.db, fmt.Sprintf("t%d", i), acctIndex)
 		if err != nil {
 			panic(err)
@@ -656,8 +667,14 @@ func (s *sched) finalChecks() {
 	s.mu.Lock()
 	tables := append([]statedb.RWTable[*acct](nil), s.tables...)
 	s.mu.Unlock()
-	if got := len(s.db.GetTables(rtxn)); got != len(tables) {
-		s.fail("lost-table", "the database root holds %d tables, %d were registered", got, len(tables))
+	pads := 0
+	for i, n := range s.c.Pad {
+		if i < max(1, s.c.NTables) {
+			pads += n
+		}
+	}
+	if got := len(s.db.GetTables(rtxn)); got != len(tables)+pads {
+		s.fail("lost-table", "the database root holds %d tables, %d were registered", got, len(tables)+pads)
 		return
 	}
 	for i, t := range tables {
@@ -690,6 +707,10 @@ type profile struct {
 
 func genCase(t *rapid.T, p profile) Case {
 	c := Case{NTables: rapid.IntRange(2, 4).Draw(t, "nTables")}
+	if rapid.IntRange(0, 5).Draw(t, "largeDB") == 0 {
+		// a large database: the workload tables sit far apart in the root
+		c.Pad = rapid.SliceOfN(rapid.SampledFrom([]int{0, 1, 62, 63, 63, 64, 127}), c.NTables, c.NTables).Draw(t, "pad")
+	}
 	nw := rapid.IntRange(2, 4).Draw(t, "workers")
 	act := rapid.Custom(func(t *rapid.T) Act {
 		a := Act{K: rapid.SampledFrom(p.acts).Draw(t, "k")}
@@ -743,7 +764,7 @@ func has(cl []string, x string) bool {
 	return false
 }
 
-const ruleC05 = "2-4 worker goroutines, each running 1-4 actions (write transactions over arbitrary overlapping/disjoint table lists in any order with duplicates that read a per-table counter, write counter+1 and transfer one unit between two of their tables, committed or aborted; snapshot reads checking the conserved cross-table sum; NewTable; WriteTxn requests naming a table handle whose registration was rejected as duplicate - these must be refused and leave nothing behind) over 2-4 initial tables; every hook point in WriteTxn/Commit/Abort/registerTable and every table-lock acquisition/release is a scheduling point and a generated schedule decides which worker proceeds (exactly one at a time). Oracle: the counter a transaction reads equals the increments committed (root stored) before it obtained the table; no table lock has two holders; every snapshot shows the conserved sum; at the end each counter equals its committed increments, every table ever registered is in the root and can be written and read back. Non-trivial = two workers were inside a write transaction at the same time; distinct by case encoding."
+const ruleC05 = "2-4 worker goroutines, each running 1-4 actions (write transactions over arbitrary overlapping/disjoint table lists in any order with duplicates that read a per-table counter, write counter+1 and transfer one unit between two of their tables, committed or aborted; snapshot reads checking the conserved cross-table sum; NewTable; WriteTxn requests naming a table handle whose registration was rejected as duplicate - these must be refused and leave nothing behind) over 2-4 initial tables (in one case out of six placed up to 128 positions apart in a database with many other tables); every hook point in WriteTxn/Commit/Abort/registerTable and every table-lock acquisition/release is a scheduling point and a generated schedule decides which worker proceeds (exactly one at a time). Oracle: the counter a transaction reads equals the increments committed (root stored) before it obtained the table; no table lock has two holders; every snapshot shows the conserved sum; at the end each counter equals its committed increments, every table ever registered is in the root and can be written and read back. Non-trivial = two workers were inside a write transaction at the same time; distinct by case encoding."
 
 func TestC05Serialised(t *testing.T) {
 	schedTest(t, "C05", "TestC05Serialised", ruleC05, profile{acts: []int{aTxn, aTxn, aTxn, aTxn, aTxn, aTxn, aRead, aNewTable, aNewTable, aTxnRejected}}, func(cl []string) bool {
